@@ -40,6 +40,15 @@ theorem bin_covered {shape facs : List Nat} (hl : shape.length = facs.length)
   have hlen : (binShape shape facs).length = facs.length := by simp [binShape, hl]
   exact binSrc_inj ht' h2 (by rw [hj'.length_eq, hlen]) (by rw [h1.length_eq, hlen]) (h.trans h3.symm)
 
+/-- **counts over the covered region are preserved (N-D)**: the sum of all binned values equals
+the sum of the input over the covered region `i_axis < f·(n/f)` — for every shape, every
+factor list and every commutative additive monoid of values (integers, reals, complex). -/
+theorem bin_total {α : Type} [AddCommMonoid α] [Inhabited α] (a : Arr α) (facs : List Nat)
+    (hl : a.shape.length = facs.length) :
+    (binNd a facs).data.sum = ((allIdx (coveredShape a.shape facs)).map a.get).sum := by
+  unfold binNd build
+  exact sum_bin_blocks a.shape facs hl a.get
+
 /-- **block-centre coordinates are preserved**: with the new calibration
 `(origin + (f-1)/2·sampling, f·sampling)` the coordinate of binned pixel `j` is the mean
 coordinate of the `f` input pixels of block `j`; in particular the new origin is the mean
@@ -87,6 +96,15 @@ theorem pad_crop_axis (b n e : Nat) :
   simp only [padSrc]
   rw [if_pos (by omega)]
   simp
+
+/-- **pad then crop the pad widths returns the original array (N-D)**: reading the padded array
+through the per-axis selections `start = before, step = 1, length = n` (which is what
+`Dataset.crop` makes of `(before, -after)` by `pad_crop_axis`) gives back the array, for every
+shape, every width list and every element type. -/
+theorem pad_crop {α : Type} [Inhabited α] (zero : α) (a : Arr α) (w : List (Nat × Nat))
+    (hw : w.length = a.shape.length) (ha : a.data.length = prod a.shape) :
+    applyPlan (padNd zero a w) (padCropPlan a.shape w) = a :=
+  pad_crop_nd zero a w hw ha
 
 /-! ### Fourier resampling: the frequency bookkeeping -/
 
